@@ -1,4 +1,4 @@
 CONSTANTS SmallLens = {0, 1, 5, 17}
-BigLens = {8193, 16385}
+BigLens = {8193, 16385, 204801}
 INIT GenInit
 NEXT GenNext
